@@ -147,7 +147,9 @@ def panicSites : List String := [
   "journal.stopIDOrEmpty: deref *stopTimeUpdate.StopID  [guard: nil-checked]"]
 
 /-- every assignment whose target is (reached through) a package-level variable -/
-def globalWrites : List String := []
+def globalWrites : List String := [
+  "gtfs.parseStartDate: startDateCache",
+  "gtfs.parseStartDate: startDateCache[key]"]
 
 /-- in the parse entry points and the extension methods: assignments through a parameter or the receiver, as "pkg.func: root: target" -/
 def sharedWrites : List String := [
